@@ -11,7 +11,7 @@
 (*   model, a, b, r, sina, cosa, m, n, fl, stack, off, y1, y2, mu, Ncte     *)
 (* and is completed by Complete(pd) with F, Fs, h from the laminate module. *)
 (***************************************************************************)
-EXTENDS PanelOps
+EXTENDS PanelFieldOps
 
 CONSTANTS Deviations      \* set of named deviations (known findings) switched on; {} = the literal properties
 
@@ -35,7 +35,14 @@ QuantityDev(d, r, dev) ==
       [] r.q = "kM"  -> KM(d, dev)
       [] r.q = "kA"  -> KA(d, r.flow, r.beta, r.gamma, dev)
       [] r.q = "cA"  -> CA(d, r.aeromu)
-Placed(M, r) == IF r.size = 0 THEN M ELSE Place(M, r.size, r.row0, r.col0)
+      (* fields: one tuple of <<value, scale>> per point *)
+      [] r.q = "uvw"    -> Fn([k \in 1..Len(r.pts) |-> Uvw(d, r.c, r.pts[k][1], r.pts[k][2])])
+      [] r.q = "strain" -> Fn([k \in 1..Len(r.pts) |-> StrainAt(d, r.c, r.pts[k][1], r.pts[k][2], r.NL, dev)])
+      [] r.q = "stress" -> Fn([k \in 1..Len(r.pts) |-> StressAt(d, r.c, r.pts[k][1], r.pts[k][2], r.NL, dev)])
+      [] r.q = "fext"   -> Fext(d, r.forces, r.forcesInc, r.inc)
+IsMatrixReq(r) == r.q \in {"k0", "kG0", "kM", "kA", "cA"}
+Placed(M, r) == IF r.size = 0 THEN M
+                ELSE IF r.q = "fext" THEN PlaceVec(M, r.size, r.col0) ELSE Place(M, r.size, r.row0, r.col0)
 Quantity(d, r) == Placed(QuantityDev(d, r, Deviations), r)
 
 NoDef == [model |-> "none"]
@@ -53,7 +60,8 @@ Block(r) == IF r.size = 0 THEN <<0, 0>> ELSE <<r.row0, r.col0>>
 InBlock(i) == i > Block(req)[1] /\ i <= Block(req)[1] + Size(def)
 Loc(i) == i - Block(req)[1]          \* index inside the panel's own block (row0 = col0 in all placements used)
 
-Evaluated == req # NoReq
+Evaluated == req # NoReq /\ IsMatrixReq(req)
+FieldEvaluated == req # NoReq /\ ~IsMatrixReq(req)
 (* k0, kG0, kM, cA are symmetric *)
 SymmetricOut == (Evaluated /\ req.q \in {"k0", "kG0", "kM", "cA"}) => MSym(OutVals)
 (* the scale dominates the value *)
@@ -110,4 +118,20 @@ AeroStructure == (Evaluated /\ req.q = "kA" /\ req.size = 0 /\ FlowRestrained(de
     /\ Vals(KALit(def, req.flow, req.beta, req.gamma))
          = MAdd(MScale(req.beta, Vals(KALit(def, req.flow, ROne, RZero))),
                 MScale(req.gamma, Vals(KALit(def, req.flow, RZero, ROne))))
+(* ---- field consequences ------------------------------------------------------ *)
+(* the load vector is the loads' virtual work: fext . e_k = SUM F . uvw(e_k)(x_f) for every unit
+   amplitude vector e_k (both sides from the specification's own series) *)
+UnitVec(n, k) == Fn([i \in 1..n |-> IF i = k THEN ROne ELSE RZero])
+VirtualWork == (req # NoReq /\ req.q = "fext" /\ req.size = 0) =>
+    \A k \in 1..Size(def) :
+        LET e == UnitVec(Size(def), k)
+            work(fs, mult) == RSum(Fn([n \in 1..Len(fs) |->
+                LET uvw == Uvw(def, e, fs[n][1], fs[n][2])
+                IN RMul(mult, RAdd(RMul(fs[n][3], uvw[1][1]), RAdd(RMul(fs[n][4], uvw[2][1]), RMul(fs[n][5], uvw[3][1]))))]))
+        IN out[k][1] = RAdd(work(req.forces, ROne), work(req.forcesInc, req.inc))
+(* strain energy density consistency: eps^T F eps at a point is >= 0 for the linear strains *)
+StrainEnergyNonNegative == (req # NoReq /\ req.q = "stress" /\ ~req.NL /\ Deviations = {}) =>
+    \A k \in 1..Len(out) :
+        LET e == LinStrain(def, req.c, req.pts[k][1], req.pts[k][2])
+        IN RSign(RDot(Fn([p \in 1..6 |-> out[k][p][1]]), Fn([p \in 1..6 |-> e[p][1]]))) >= 0
 =============================================================================
